@@ -281,6 +281,20 @@ impl Transaction {
             let (input_slips, output_slips) =
                 wallet.generate_slips(total_requested, network, latest_block_id, genesis_period);
 
+            // slips which are about to be rebroadcast count towards the balance but cannot be
+            // used as inputs right now. never build a transaction which spends more than it has
+            let gathered = input_slips
+                .iter()
+                .fold(0 as Currency, |sum, slip| sum.saturating_add(slip.amount));
+            if gathered < total_requested {
+                debug!(
+                    "not enough usable funds to create transaction. required : {:?} usable : {:?}",
+                    total_requested, gathered
+                );
+                wallet.release_slips(&input_slips);
+                return Err(Error::from(ErrorKind::NotFound));
+            }
+
             for input in input_slips {
                 transaction.add_from_slip(input);
             }
